@@ -117,9 +117,10 @@ type Interp struct {
 	ptrTokens map[interface{}]uint64
 	pcTable   []pcEntry
 	pcIndex   map[pcEntry]int
-	rfuncs    map[*ssa.Function]*Cell
+	rfuncs    map[string]*Cell
 	protoByName map[string]types.Type
 	protoByType map[types.Type]string
+	params      map[string]int
 }
 
 type intrinsicFn func(in *Interp, fr *frame, args []Value) Value
